@@ -18,6 +18,21 @@ def load_impl(ctx):
     return implmod.load(ctx.work)
 
 
+def fresh_equal(v):
+    """an object equal to v but (for floats, integers beyond CPython's small-integer cache, strings and tuples) not the same object"""
+    if isinstance(v, bool):
+        return v
+    if isinstance(v, float):
+        return float(repr(v))
+    if isinstance(v, int):
+        return int(str(v))
+    if isinstance(v, str):
+        return "".join(list(v)) if len(v) > 1 else v
+    if isinstance(v, tuple):
+        return tuple(fresh_equal(x) for x in v)
+    return v
+
+
 class UView:
     """position -> Unit of a real Units object whose keys need not be the positions"""
     def __init__(self, units, keys, ckeys=None):
@@ -29,8 +44,9 @@ class UView:
         return self.units[self.keys[pos]]
 
     def ck(self, c):
-        """candidate key of candidate index c"""
-        return c if self.ckeys is None else self.ckeys[c]
+        """candidate key of candidate index c - a FRESH object equal to the registered key (a float, a large integer, a string, a tuple built anew on
+        every call), as a caller who computes candidate values would hand over: equal, but not identical"""
+        return c if self.ckeys is None else fresh_equal(self.ckeys[c])
 
 
 def rand_keys(rng, n_units):
